@@ -430,7 +430,9 @@ Proof.
   - destruct (fold_left (grow_step true c') (tbl t) (Ok (repeat empty_slot c'))) as [w| |].
     + split; [discriminate|]. intros t' E. injection E as <-. cbn [tbl cap len arena hits].
       destruct (Hres _ eq_refl) as (Hl' & Hr' & Hperm'). rewrite pays_repeat_empty, app_nil_r in Hperm'.
-      repeat split; auto; try lia.
+      split; [|repeat split; auto; lia].
+      unfold TI; cbn [tbl cap len arena].
+      split; [lia|]. split; [exact Hl'|]. split; [exact Hr'|]. split; [|split; [|split; [|split]]]; auto; try lia.
       * etransitivity; [apply Permutation_map; apply Permutation_sym; exact Hperm'|exact Hperm].
       * intros i h Hin. apply Hh. apply (Permutation_in _ (Permutation_sym Hperm')). exact Hin.
     + split; [discriminate|intros t' E; discriminate].
@@ -458,4 +460,446 @@ Proof.
   - apply (Permutation_NoDup (Permutation_cons_append (arena t) e)). constructor; assumption.
   - lia.
   - exact Hload.
+Qed.
+
+(* the global form of (ii): every slot on the cyclic path from the home slot of a stored entry
+   to the entry is occupied, by an entry that has travelled at least as far -- this is what
+   makes the early exit [cur.psl < psl => absent] sound *)
+Lemma path c v h0 q : RHloc c v -> h0 < c -> q < c ->
+  occupied (nth q v empty_slot) = true -> spsl (nth q v empty_slot) = dist c h0 q ->
+  forall n p, p < c -> dist c h0 p + n = dist c h0 q ->
+    occupied (nth p v empty_slot) = true /\ dist c h0 p <= spsl (nth p v empty_slot).
+Proof.
+  intros HRH Hh0 Hq Hoq Hpsl. induction n as [|n IH]; intros p Hp Hd.
+  - assert (p = q) by (apply (dist_inj c h0); auto; lia). subst p. split; [exact Hoq|lia].
+  - pose proof (dist_lt c h0 q Hh0 Hq) as Hdq.
+    assert (Hdn : dist c h0 (nxt c p) = S (dist c h0 p)) by (apply dist_nxt; auto; lia).
+    destruct (IH (nxt c p) (nxt_lt c p Hp) ltac:(lia)) as [Hon Hge].
+    destruct (HRH (nxt c p) (nxt_lt c p Hp) Hon) as [_ [Hz|[Hop Hle]]]; [lia|].
+    rewrite prd_nxt in Hop, Hle by auto. split; [exact Hop|lia].
+Qed.
+
+Definition new_slot (id : nat) (hash : N) (psl : nat) : slot := {| sid := Some id; shash := hash; spsl := psl |}.
+
+(* probing for an element that is not in the arena: it is inserted, in order *)
+Lemma probe_absent t e f :
+  TI t -> S (len t) < cap t -> ~ In e (arena t) ->
+  f < cap t -> occupied (nth f (tbl t) empty_slot) = false ->
+  forall fuel pos k, pos < cap t -> dist (cap t) pos f < fuel ->
+    slot_ok (cap t) (tbl t) pos (new_slot (length (arena t)) (H e) k) ->
+    probe fuel t (H e) e false pos k <> OutOfFuel /\
+    forall id t', probe fuel t (H e) e false pos k = Ok (id, t') ->
+      id = length (arena t) /\ TI t' /\ arena t' = arena t ++ [e] /\ hits t' = hits t.
+Proof.
+  intros HTI Hload Hnin Hf Hfree.
+  pose proof HTI as (Hc & Hlen & HRH & Hperm & Hh & Hnd & Hl & Hlt).
+  induction fuel as [|n IH]; intros pos k Hpos Hfuel Hok; [lia|].
+  cbn [probe]. rewrite (mod_nxt _ pos Hpos).
+  remember (nth pos (tbl t) empty_slot) as cur eqn:Ecur.
+  destruct (sid cur) as [id'|] eqn:Hsid.
+  - assert (Hocc : occupied (nth pos (tbl t) empty_slot) = true) by (rewrite <- Ecur; unfold occupied; rewrite Hsid; reflexivity).
+    assert (Hin : In (id', shash cur) (pays (tbl t))).
+    { apply In_pays. exists pos. rewrite <- Ecur. split; [lia|auto]. }
+    pose proof (TI_id_lt t _ _ HTI Hin) as Hidlt.
+    destruct (N.eqb (H e) (shash cur) && (false || N.eqb (nth id' (arena t) 0%N) e)) eqn:Etest.
+    { exfalso. apply andb_prop in Etest. destruct Etest as [_ E2]. cbn [orb] in E2.
+      apply N.eqb_eq in E2. apply Hnin. rewrite <- E2. apply nth_In. exact Hidlt. }
+    destruct (Nat.ltb_spec (spsl cur) k) as [Hlt'|Hge].
+    + (* rich slot: the incumbent is propagated, the new element takes its place *)
+      destruct (propagate_then_overwrite (cap t) (tbl t) f pos (new_slot (length (arena t)) (H e) k))
+        as [Hnf Hres]; auto; [rewrite <- Ecur; exact Hlt'|].
+      rewrite <- Ecur in Hnf, Hres.
+      destruct (propagate (S (cap t)) (tbl t) (cap t) cur pos) as [w| |].
+      * split; [discriminate|]. intros id t' E. unfold insert_at in E. injection E as <- <-.
+        destruct (Hres _ eq_refl) as (Hl' & Hr' & Hperm'). cbn [arena hits].
+        split; [reflexivity|]. split; [|auto]. apply TI_insert; auto.
+      * split; [discriminate|intros id t' E; discriminate].
+      * congruence.
+    + destruct (Nat.leb psl_max k); [split; [discriminate|intros id t' E; discriminate]|].
+      assert (Hpf : pos <> f) by (intros ->; congruence).
+      destruct (dist_from_nxt _ pos f Hpos Hf Hpf) as [Hdn Hdpos].
+      pose proof (free_bound_nowrap _ _ f HRH Hf Hfree pos Hpos Hocc) as Hnw. rewrite <- Ecur in Hnw.
+      destruct Hok as [Hkd _]. cbn [new_slot spsl shash] in Hkd.
+      pose proof (home_lt (cap t) (H e) Hc) as Hhe.
+      apply IH; [apply nxt_lt; auto|lia|]. split; cbn [new_slot spsl shash].
+      * rewrite dist_nxt by (auto; lia). lia.
+      * right. rewrite prd_nxt by auto. split; [exact Hocc|]. rewrite <- Ecur. lia.
+  - (* free slot *)
+    assert (Hocc : occupied (nth pos (tbl t) empty_slot) = false) by (rewrite <- Ecur; unfold occupied; rewrite Hsid; reflexivity).
+    split; [discriminate|]. intros id t' E. unfold insert_at in E. injection E as <- <-. cbn [arena hits].
+    split; [reflexivity|]. split; [|auto]. apply TI_insert; auto.
+    + rewrite length_set_nth; auto.
+    + apply RHloc_set_nth; auto. rewrite Hocc. discriminate.
+    + pose proof (pays_set_nth (tbl t) pos (new_slot (length (arena t)) (H e) k) ltac:(lia)) as Hp.
+      rewrite (pays1_occupied _ Hocc) in Hp. exact Hp.
+Qed.
+
+(* probing for an element that is in the arena: its id is found (the early exit cannot fire) *)
+Lemma probe_present t i q :
+  TI t -> i < length (arena t) -> q < cap t -> sid (nth q (tbl t) empty_slot) = Some i ->
+  let e := nth i (arena t) 0%N in
+  forall n fuel pos, n < fuel -> pos < cap t ->
+    dist (cap t) (home (cap t) (H e)) pos + n = dist (cap t) (home (cap t) (H e)) q ->
+    probe fuel t (H e) e false pos (dist (cap t) (home (cap t) (H e)) pos) = Ok (i, hit t) \/
+    probe fuel t (H e) e false pos (dist (cap t) (home (cap t) (H e)) pos) = PslOverflow.
+Proof.
+  intros HTI Hi Hq Hsq e.
+  pose proof HTI as (Hc & Hlen & HRH & Hperm & Hh & Hnd & Hl & Hlt).
+  assert (Hoq : occupied (nth q (tbl t) empty_slot) = true) by (unfold occupied; rewrite Hsq; reflexivity).
+  assert (Hhq : shash (nth q (tbl t) empty_slot) = H e).
+  { apply Hh. apply In_pays. exists q. split; [lia|auto]. }
+  pose proof (home_lt (cap t) (H e) Hc) as Hhe.
+  assert (Hpq : spsl (nth q (tbl t) empty_slot) = dist (cap t) (home (cap t) (H e)) q).
+  { destruct (HRH q Hq Hoq) as [Hd _]. rewrite Hd, Hhq. reflexivity. }
+  pose proof (dist_lt _ _ q Hhe Hq) as Hdq.
+  induction n as [|n IH]; intros fuel pos Hfuel Hpos Hd; (destruct fuel as [|fuel]; [lia|]).
+  - assert (pos = q) by (apply (dist_inj (cap t) (home (cap t) (H e))); auto; lia). subst pos.
+    cbn [probe]. rewrite Hsq, Hhq, N.eqb_refl. fold e. rewrite N.eqb_refl. left. reflexivity.
+  - destruct (path _ _ _ q HRH Hhe Hq Hoq Hpq (S n) pos Hpos Hd) as [Hop Hge].
+    cbn [probe]. rewrite (mod_nxt _ pos Hpos).
+    remember (nth pos (tbl t) empty_slot) as cur eqn:Ecur.
+    destruct (sid cur) as [id'|] eqn:Hsid; [|unfold occupied in Hop; rewrite Hsid in Hop; discriminate].
+    destruct (N.eqb (H e) (shash cur) && (false || N.eqb (nth id' (arena t) 0%N) e)) eqn:Etest.
+    + left. apply andb_prop in Etest. destruct Etest as [_ E2]. cbn [orb] in E2. apply N.eqb_eq in E2.
+      assert (Hin : In (id', shash cur) (pays (tbl t))).
+      { apply In_pays. exists pos. rewrite <- Ecur. split; [lia|auto]. }
+      pose proof (TI_id_lt t _ _ HTI Hin) as Hidlt.
+      assert (id' = i) by (apply (proj1 (NoDup_nth (arena t) 0%N) Hnd); auto). subst id'. reflexivity.
+    + destruct (Nat.ltb_spec (spsl cur) (dist (cap t) (home (cap t) (H e)) pos)) as [Hlt'|_]; [lia|].
+      destruct (Nat.leb psl_max _); [right; reflexivity|].
+      assert (Hdn : dist (cap t) (home (cap t) (H e)) (nxt (cap t) pos) = S (dist (cap t) (home (cap t) (H e)) pos))
+        by (apply dist_nxt; auto; lia).
+      rewrite <- Hdn. apply IH; [lia|apply nxt_lt; auto|lia].
+Qed.
+
+Lemma TI_hit t : TI t -> TI (hit t).
+Proof. intros HTI. exact HTI. Qed.
+
+(* one call of get_or_insert_by_hash (H e) e false *)
+Lemma goi_spec t e : TI t ->
+  get_or_insert_by_hash true t (H e) e false <> OutOfFuel /\
+  forall id t', get_or_insert_by_hash true t (H e) e false = Ok (id, t') ->
+    TI t' /\ id < length (arena t') /\ nth id (arena t') 0%N = e /\
+    ((In e (arena t) /\ arena t' = arena t /\ hits t' = S (hits t)) \/
+     (~ In e (arena t) /\ arena t' = arena t ++ [e] /\ hits t' = hits t /\ id = length (arena t))).
+Proof.
+  intros HTI. unfold get_or_insert_by_hash.
+  (* after the load test / growth: the same contents and room for one more *)
+  assert (Hpre : (if needs_grow t then grow true t else Ok t) <> OutOfFuel /\
+                 forall t1, (if needs_grow t then grow true t else Ok t) = Ok t1 ->
+                   TI t1 /\ S (len t1) < cap t1 /\ arena t1 = arena t /\ hits t1 = hits t).
+  { destruct (needs_grow t) eqn:Eg.
+    - destruct (TI_grow t HTI) as [Hnf Hres]. split; [exact Hnf|]. intros t1 E.
+      destruct (Hres t1 E) as (HTI1 & Ha & Hl & Hh & Hc).
+      destruct HTI as (_ & _ & _ & _ & _ & _ & _ & Hlt).
+      split; [exact HTI1|]. split; [lia|]. split; assumption.
+    - split; [discriminate|]. intros t1 E. injection E as <-.
+      unfold needs_grow in Eg. apply Nat.ltb_ge in Eg.
+      split; [exact HTI|]. split; [|auto]. destruct HTI as (Hc & _).
+      unfold load_num, load_den in Eg. lia. }
+  destruct Hpre as [Hnf1 Hres1].
+  destruct (if needs_grow t then grow true t else Ok t) as [t1| |];
+    [|split; [discriminate|intros id t' E; discriminate]|congruence].
+  destruct (Hres1 t1 eq_refl) as (HTI1 & Hload & Ha & Hhits). rewrite <- Ha, <- Hhits.
+  pose proof HTI1 as (Hc & Hlen & HRH & Hperm & Hh & Hnd & Hl & Hlt).
+  pose proof (home_lt (cap t1) (H e) Hc) as Hhe.
+  destruct (in_dec N.eq_dec e (arena t1)) as [Hin|Hnin].
+  - destruct (In_nth _ _ 0%N Hin) as (i & Hi & Ee).
+    destruct (TI_stored t1 i HTI1 Hi) as (q & Hq & Hsq & _).
+    pose proof (probe_present t1 i q HTI1 Hi Hq Hsq) as Hpp. cbv zeta in Hpp. rewrite Ee in Hpp.
+    specialize (Hpp (dist (cap t1) (home (cap t1) (H e)) q) (S (cap t1)) (home (cap t1) (H e))).
+    rewrite dist_refl in Hpp.
+    pose proof (dist_lt _ _ q Hhe Hq).
+    destruct Hpp as [Hpp|Hpp]; auto; try lia; rewrite Hpp.
+    + split; [discriminate|]. intros id t' E. injection E as <- <-. cbn [hit arena hits].
+      split; [apply TI_hit; exact HTI1|]. split; [exact Hi|]. split; [exact Ee|]. left. auto.
+    + split; [discriminate|intros id t' E; discriminate].
+  - destruct (TI_free t1 HTI1) as (f & Hf & Hfree).
+    destruct (probe_absent t1 e f HTI1 Hload Hnin Hf Hfree (S (cap t1)) (home (cap t1) (H e)) 0) as [Hnf Hres]; auto.
+    + pose proof (dist_lt _ _ f Hhe Hf). lia.
+    + split; [|left; reflexivity]. cbn [new_slot spsl shash]. rewrite dist_refl. reflexivity.
+    + split; [exact Hnf|]. intros id t' E. destruct (Hres id t' E) as (-> & HTI' & Ha' & Hh').
+      split; [exact HTI'|]. rewrite Ha'. rewrite app_length. cbn [length].
+      split; [lia|]. split; [rewrite app_nth2 by lia; rewrite Nat.sub_diag; reflexivity|].
+      right. auto.
+Qed.
+
+(* a history of calls *)
+Lemma run_spec : forall es t, TI t ->
+  run true H t es <> OutOfFuel /\
+  forall ids t', run true H t es = Ok (ids, t') ->
+    TI t' /\ length ids = length es /\ (exists suf, arena t' = arena t ++ suf) /\
+    (forall k, k < length es ->
+       nth k ids 0 < length (arena t') /\ nth (nth k ids 0) (arena t') 0%N = nth k es 0%N) /\
+    (forall x, In x (arena t') <-> In x (arena t) \/ In x es) /\
+    hits t' + length (arena t') = hits t + length (arena t) + length es.
+Proof.
+  induction es as [|e r IH]; intros t HTI.
+  - cbn [run]. split; [discriminate|]. intros ids t' E. injection E as <- <-.
+    split; [exact HTI|]. split; [reflexivity|]. split; [exists []; rewrite app_nil_r; reflexivity|].
+    split; [intros k Hk; simpl in Hk; lia|]. split; [intros x; simpl; tauto|simpl; lia].
+  - cbn [run]. destruct (goi_spec t e HTI) as [Hnf1 Hres1].
+    destruct (get_or_insert_by_hash true t (H e) e false) as [[id t1]| |];
+      [|split; [discriminate|intros ids t' E; discriminate]|congruence].
+    destruct (Hres1 id t1 eq_refl) as (HTI1 & Hid & Hnth & Hcase).
+    destruct (IH t1 HTI1) as [Hnf2 Hres2].
+    destruct (run true H t1 r) as [[ids2 t2]| |];
+      [|split; [discriminate|intros ids t' E; discriminate]|congruence].
+    split; [discriminate|]. intros ids t' E. injection E as <- <-.
+    destruct (Hres2 ids2 t2 eq_refl) as (HTI2 & Hlen2 & [suf2 Hsuf2] & Hk2 & Hin2 & Hhits2).
+    assert (Hsuf1 : exists suf1, arena t1 = arena t ++ suf1).
+    { destruct Hcase as [(_ & Ha & _)|(_ & Ha & _)]; [exists []; rewrite app_nil_r; exact Ha|exists [e]; exact Ha]. }
+    destruct Hsuf1 as [suf1 Hsuf1].
+    split; [exact HTI2|]. split; [simpl; lia|].
+    split; [exists (suf1 ++ suf2); rewrite Hsuf2, Hsuf1, app_assoc; reflexivity|]. split; [|split].
+    + intros [|k] Hk; cbn [nth].
+      * rewrite Hsuf2. rewrite app_length. split; [lia|]. rewrite app_nth1 by exact Hid. exact Hnth.
+      * apply Hk2. simpl in Hk. lia.
+    + intros x. rewrite Hin2. cbn [In].
+      destruct Hcase as [(Hine & Ha & _)|(Hnine & Ha & _)]; rewrite Ha.
+      * split; [tauto|]. intros [Hx|[<-|Hx]]; auto.
+      * rewrite in_app_iff. cbn [In]. tauto.
+    + cbn [length]. destruct Hcase as [(_ & Ha & Hh1)|(_ & Ha & Hh1 & _)]; rewrite Ha, Hh1 in Hhits2.
+      * lia.
+      * rewrite app_length in Hhits2. cbn [length] in Hhits2. lia.
+Qed.
+
+End WithHash.
+
+(* ------------------------------------------------------------------------------------- *)
+(* the refinement theorem                                                                *)
+
+Theorem rh_refines_set : forall (H : N -> N) (c : nat) (es : list N) (ids : list nat) (t' : table),
+  1 <= c -> run true H (new_table c) es = Ok (ids, t') ->
+  length ids = length es /\
+  (forall i j, i < length es -> j < length es ->
+     (nth i ids 0 = nth j ids 0 <-> nth i es 0%N = nth j es 0%N)) /\
+  (forall i, i < length es -> nth (nth i ids 0) (arena t') 0%N = nth i es 0%N) /\
+  num_nodes t' = length (nodup N.eq_dec es) /\
+  length (arena t') = length (nodup N.eq_dec es) /\
+  hits t' + length (nodup N.eq_dec es) = length es.
+Proof.
+  intros H c es ids t' Hc Hrun.
+  destruct (run_spec H es (new_table c) (TI_new H c Hc)) as [_ Hres].
+  destruct (Hres ids t' Hrun) as (HTI & Hlen & _ & Hk & Hin & Hhits).
+  destruct HTI as (_ & _ & _ & _ & _ & Hnd & Hl & _).
+  split; [exact Hlen|]. split; [|split; [intros i Hi; apply Hk; exact Hi|]].
+  - intros i j Hi Hj. destruct (Hk i Hi) as [Hil Hie]. destruct (Hk j Hj) as [Hjl Hje]. split.
+    + intros E. rewrite <- Hie, <- Hje, E. reflexivity.
+    + intros E. apply (proj1 (NoDup_nth (arena t') 0%N) Hnd); auto. rewrite Hie, Hje. exact E.
+  - assert (Hperm : Permutation (arena t') (nodup N.eq_dec es)).
+    { apply NoDup_Permutation; [exact Hnd|apply NoDup_nodup|].
+      intros x. rewrite Hin, nodup_In. cbn [new_table arena In]. tauto. }
+    apply Permutation_length in Hperm. unfold num_nodes. cbn [new_table hits arena length] in Hhits.
+    split; [lia|]. split; lia.
+Qed.
+
+(* the only excluded error is the u8 overflow: probing and propagating never run out of fuel *)
+Theorem rh_never_out_of_fuel : forall (H : N -> N) (c : nat) (es : list N),
+  1 <= c -> run true H (new_table c) es <> OutOfFuel.
+Proof. intros H c es Hc. apply (run_spec H es (new_table c) (TI_new H c Hc)). Qed.
+
+(* ------------------------------------------------------------------------------------- *)
+(* the arena is append-only: syntactic, for both grows, every argument, no invariant     *)
+
+Lemma probe_arena : forall fuel t h e b pos k id t',
+  probe fuel t h e b pos k = Ok (id, t') -> arena t' = arena t \/ arena t' = arena t ++ [e].
+Proof.
+  induction fuel as [|n IH]; intros t h e b pos k id t' E; [discriminate|].
+  cbn [probe] in E. destruct (sid (nth pos (tbl t) empty_slot)) as [id'|].
+  - destruct (_ && _).
+    + injection E as <- <-. left. reflexivity.
+    + destruct (Nat.ltb _ _).
+      * destruct (propagate _ _ _ _ _); try discriminate. injection E as <- <-. right. reflexivity.
+      * destruct (Nat.leb _ _); [discriminate|]. eapply IH; eauto.
+  - injection E as <- <-. right. reflexivity.
+Qed.
+
+Lemma grow_arena fixed t t' : grow fixed t = Ok t' -> arena t' = arena t.
+Proof.
+  unfold grow. destruct (fold_left _ _ _); intros E; try discriminate. injection E as <-. reflexivity.
+Qed.
+
+Theorem arena_append_only_step : forall fixed t h e b id t',
+  get_or_insert_by_hash fixed t h e b = Ok (id, t') -> exists suf, arena t' = arena t ++ suf.
+Proof.
+  intros fixed t h e b id t' E. unfold get_or_insert_by_hash in E.
+  destruct (needs_grow t).
+  - destruct (grow fixed t) as [t1| |] eqn:Eg; try discriminate.
+    rewrite <- (grow_arena _ _ _ Eg). apply probe_arena in E.
+    destruct E as [-> | ->]; [exists []; rewrite app_nil_r; reflexivity|eexists; reflexivity].
+  - apply probe_arena in E.
+    destruct E as [-> | ->]; [exists []; rewrite app_nil_r; reflexivity|eexists; reflexivity].
+Qed.
+
+Lemma get_by_hash_arena t h r t' : get_by_hash t h = Ok (r, t') -> arena t' = arena t.
+Proof.
+  unfold get_by_hash. destruct (lookup _ _ _ _ _) as [[id|]| |]; intros E; try discriminate;
+    injection E as <- <-; reflexivity.
+Qed.
+
+Lemma run_app fixed H : forall es1 es2 t ids t',
+  run fixed H t (es1 ++ es2) = Ok (ids, t') ->
+  exists ids1 t1 ids2, run fixed H t es1 = Ok (ids1, t1) /\ run fixed H t1 es2 = Ok (ids2, t') /\
+                       ids = ids1 ++ ids2.
+Proof.
+  induction es1 as [|e r IH]; intros es2 t ids t' E.
+  - exists [], t, ids. auto.
+  - cbn [app run] in *. destruct (get_or_insert_by_hash fixed t (H e) e false) as [[id t1]| |]; try discriminate.
+    destruct (run fixed H t1 (r ++ es2)) as [[ids' t2]| |] eqn:E2; try discriminate.
+    injection E as <- <-. destruct (IH es2 t1 ids' t2 E2) as (ids1 & t1' & ids2 & E1 & E3 & ->).
+    rewrite E1. exists (id :: ids1), t1', ids2. auto.
+Qed.
+
+(* every id handed out denotes its element at the time it is handed out and at every later
+   time, whatever happens in between (probing, robin-hood swaps, any number of growths) *)
+Theorem arena_append_only : forall (H : N -> N) (c : nat) (es1 es2 : list N) (ids : list nat) (t' : table),
+  1 <= c -> run true H (new_table c) (es1 ++ es2) = Ok (ids, t') ->
+  exists ids1 t1 ids2,
+    run true H (new_table c) es1 = Ok (ids1, t1) /\ ids = ids1 ++ ids2 /\
+    (exists suf, arena t' = arena t1 ++ suf) /\
+    forall k, k < length es1 ->
+      nth k ids 0 = nth k ids1 0 /\ nth k ids1 0 < length (arena t1) /\
+      nth (nth k ids1 0) (arena t1) 0%N = nth k es1 0%N /\
+      nth (nth k ids1 0) (arena t') 0%N = nth k es1 0%N.
+Proof.
+  intros H c es1 es2 ids t' Hc Hrun.
+  destruct (run_app true H es1 es2 _ _ _ Hrun) as (ids1 & t1 & ids2 & E1 & E2 & ->).
+  exists ids1, t1, ids2. split; [exact E1|]. split; [reflexivity|].
+  destruct (run_spec H es1 (new_table c) (TI_new H c Hc)) as [_ Hres1].
+  destruct (Hres1 ids1 t1 E1) as (HTI1 & Hlen1 & _ & Hk1 & _ & _).
+  destruct (run_spec H es2 t1 HTI1) as [_ Hres2].
+  destruct (Hres2 ids2 t' E2) as (_ & _ & [suf Hsuf] & _ & _ & _).
+  split; [exists suf; exact Hsuf|]. intros k Hk. destruct (Hk1 k Hk) as [Hlt Hnth].
+  split; [rewrite app_nth1 by lia; reflexivity|]. split; [exact Hlt|]. split; [exact Hnth|].
+  rewrite Hsuf, app_nth1 by exact Hlt. exact Hnth.
+Qed.
+
+(* ------------------------------------------------------------------------------------- *)
+(* the pinned grow (ghost slots re-inserted, old psl carried over) breaks the refinement  *)
+
+Definition rh_pinned_witness : list N := [0; 1; 0; 1]%N.
+
+Theorem rh_refuted_pinned :
+  exists ids t', run false (fun e => e) (new_table 2) rh_pinned_witness = Ok (ids, t') /\
+    nth 1 rh_pinned_witness 0%N = nth 3 rh_pinned_witness 0%N /\ nth 1 ids 0 <> nth 3 ids 0 /\
+    num_nodes t' = 3.
+Proof.
+  eexists. eexists. split; [vm_compute; reflexivity|]. split; [reflexivity|]. split; [|reflexivity].
+  vm_compute. discriminate.
+Qed.
+
+(* the same history on the code as it is now *)
+Example rh_fixed_same :
+  exists t', run true (fun e => e) (new_table 2) rh_pinned_witness = Ok ([0; 1; 0; 1], t') /\ num_nodes t' = 2.
+Proof. eexists. split; vm_compute; reflexivity. Qed.
+
+(* ------------------------------------------------------------------------------------- *)
+(* get_by_hash: the hash-only lookup                                                     *)
+
+Lemma lookup_some : forall fuel t h pos k id,
+  lookup fuel t h pos k = Ok (Some id) -> In (id, h) (pays (tbl t)).
+Proof.
+  induction fuel as [|n IH]; intros t h pos k id E; [discriminate|]. cbn [lookup] in E.
+  remember (nth pos (tbl t) empty_slot) as cur eqn:Ecur.
+  destruct (sid cur) as [id'|] eqn:Hsid; [|discriminate].
+  destruct (N.eqb_spec h (shash cur)) as [Eh|_].
+  - injection E as <-. apply In_pays. exists pos. rewrite <- Ecur.
+    destruct (le_lt_dec (length (tbl t)) pos) as [Hge|Hlt]; [|auto].
+    rewrite nth_overflow in Ecur by exact Hge. subst cur. discriminate.
+  - destruct (Nat.ltb _ _); [discriminate|]. destruct (Nat.leb _ _); [discriminate|]. eapply IH; eauto.
+Qed.
+
+Lemma lookup_fuel t h f : f < cap t -> occupied (nth f (tbl t) empty_slot) = false ->
+  forall fuel pos k, pos < cap t -> dist (cap t) pos f < fuel -> lookup fuel t h pos k <> OutOfFuel.
+Proof.
+  intros Hf Hfree. induction fuel as [|n IH]; intros pos k Hpos Hfuel; [lia|].
+  cbn [lookup]. rewrite (mod_nxt _ pos Hpos).
+  destruct (sid (nth pos (tbl t) empty_slot)) as [id'|] eqn:Hsid; [|discriminate].
+  destruct (N.eqb _ _); [discriminate|]. destruct (Nat.ltb _ _); [discriminate|].
+  destruct (Nat.leb _ _); [discriminate|].
+  assert (Hpf : pos <> f) by (intros ->; unfold occupied in Hfree; rewrite Hsid in Hfree; discriminate).
+  destruct (dist_from_nxt _ pos f Hpos Hf Hpf) as [Hdn Hdpos].
+  apply IH; [apply nxt_lt; auto|lia].
+Qed.
+
+Lemma lookup_present H t i q :
+  TI H t -> i < length (arena t) -> q < cap t -> sid (nth q (tbl t) empty_slot) = Some i ->
+  let h := H (nth i (arena t) 0%N) in
+  forall n fuel pos, n < fuel -> pos < cap t ->
+    dist (cap t) (home (cap t) h) pos + n = dist (cap t) (home (cap t) h) q ->
+    lookup fuel t h pos (dist (cap t) (home (cap t) h) pos) <> Ok None.
+Proof.
+  intros HTI Hi Hq Hsq h.
+  pose proof HTI as (Hc & Hlen & HRH & Hperm & Hh & Hnd & Hl & Hlt).
+  assert (Hoq : occupied (nth q (tbl t) empty_slot) = true) by (unfold occupied; rewrite Hsq; reflexivity).
+  assert (Hhq : shash (nth q (tbl t) empty_slot) = h).
+  { apply Hh. apply In_pays. exists q. split; [lia|auto]. }
+  pose proof (home_lt (cap t) h Hc) as Hhe.
+  assert (Hpq : spsl (nth q (tbl t) empty_slot) = dist (cap t) (home (cap t) h) q).
+  { destruct (HRH q Hq Hoq) as [Hd _]. rewrite Hd, Hhq. reflexivity. }
+  pose proof (dist_lt _ _ q Hhe Hq) as Hdq.
+  induction n as [|n IH]; intros fuel pos Hfuel Hpos Hd; (destruct fuel as [|fuel]; [lia|]).
+  - assert (pos = q) by (apply (dist_inj (cap t) (home (cap t) h)); auto; lia). subst pos.
+    cbn [lookup]. rewrite Hsq, Hhq, N.eqb_refl. discriminate.
+  - destruct (path _ _ _ q HRH Hhe Hq Hoq Hpq (S n) pos Hpos Hd) as [Hop Hge].
+    cbn [lookup]. rewrite (mod_nxt _ pos Hpos).
+    remember (nth pos (tbl t) empty_slot) as cur eqn:Ecur.
+    destruct (sid cur) as [id'|] eqn:Hsid; [|unfold occupied in Hop; rewrite Hsid in Hop; discriminate].
+    destruct (N.eqb h (shash cur)); [discriminate|].
+    destruct (Nat.ltb_spec (spsl cur) (dist (cap t) (home (cap t) h) pos)) as [Hlt'|_]; [lia|].
+    destruct (Nat.leb psl_max _); [discriminate|].
+    assert (Hdn : dist (cap t) (home (cap t) h) (nxt (cap t) pos) = S (dist (cap t) (home (cap t) h) pos))
+      by (apply dist_nxt; auto; lia).
+    rewrite <- Hdn. apply IH; [lia|apply nxt_lt; auto|lia].
+Qed.
+
+Lemma get_by_hash_spec H t h : TI H t ->
+  get_by_hash t h <> OutOfFuel /\
+  (forall id t', get_by_hash t h = Ok (Some id, t') ->
+     id < length (arena t) /\ H (nth id (arena t) 0%N) = h /\ t' = hit t) /\
+  (forall t', get_by_hash t h = Ok (None, t') -> t' = t /\ forall x, In x (arena t) -> H x <> h).
+Proof.
+  intros HTI. pose proof HTI as (Hc & Hlen & HRH & Hperm & Hh & Hnd & Hl & Hlt).
+  pose proof (home_lt (cap t) h Hc) as Hhe.
+  destruct (TI_free H t HTI) as (f & Hf & Hfree).
+  assert (Hnf : lookup (S (cap t)) t h (home (cap t) h) 0 <> OutOfFuel).
+  { apply (lookup_fuel t h f Hf Hfree); auto. pose proof (dist_lt _ _ f Hhe Hf). lia. }
+  unfold get_by_hash.
+  destruct (lookup (S (cap t)) t h (home (cap t) h) 0) as [[id|]| |] eqn:El; [| | |congruence].
+  - split; [discriminate|]. split; [|intros t' E; discriminate].
+    intros id' t' E. injection E as <- <-. apply lookup_some in El.
+    split; [eapply TI_id_lt; eauto|]. split; [symmetry; apply Hh; exact El|reflexivity].
+  - split; [discriminate|]. split; [intros id' t' E; discriminate|].
+    intros t' E. injection E as <-. split; [reflexivity|]. intros x Hin Ex.
+    destruct (In_nth _ _ 0%N Hin) as (i & Hi & Ei).
+    destruct (TI_stored H t i HTI Hi) as (q & Hq & Hsq & _).
+    pose proof (lookup_present H t i q HTI Hi Hq Hsq) as Hlp. cbv zeta in Hlp. rewrite Ei, Ex in Hlp.
+    specialize (Hlp (dist (cap t) (home (cap t) h) q) (S (cap t)) (home (cap t) h)).
+    rewrite dist_refl in Hlp. pose proof (dist_lt _ _ q Hhe Hq). apply Hlp; auto; lia.
+  - split; [discriminate|]. split; intros; discriminate.
+Qed.
+
+(* every table reached by a history of get_or_insert_by_hash calls satisfies the invariant *)
+Lemma run_TI H c es ids t : 1 <= c -> run true H (new_table c) es = Ok (ids, t) ->
+  TI H t /\ forall x, In x (arena t) <-> In x es.
+Proof.
+  intros Hc Hrun. destruct (run_spec H es (new_table c) (TI_new H c Hc)) as [_ Hres].
+  destruct (Hres ids t Hrun) as (HTI & _ & _ & _ & Hin & _). split; [exact HTI|].
+  intros x. rewrite Hin. cbn [new_table arena In]. tauto.
+Qed.
+
+Theorem rh_get_by_hash_spec : forall (H : N -> N) (c : nat) (es : list N) (ids : list nat) (t : table) (h : N),
+  1 <= c -> run true H (new_table c) es = Ok (ids, t) ->
+  get_by_hash t h <> OutOfFuel /\
+  (forall id t', get_by_hash t h = Ok (Some id, t') ->
+     id < length (arena t) /\ In (nth id (arena t) 0%N) es /\ H (nth id (arena t) 0%N) = h /\
+     arena t' = arena t /\ tbl t' = tbl t) /\
+  (forall t', get_by_hash t h = Ok (None, t') -> t' = t /\ forall x, In x es -> H x <> h).
+Proof.
+  intros H c es ids t h Hc Hrun. destruct (run_TI H c es ids t Hc Hrun) as [HTI Hin].
+  destruct (get_by_hash_spec H t h HTI) as (Hnf & Hs & Hn). split; [exact Hnf|]. split.
+  - intros id t' E. destruct (Hs id t' E) as (Hlt & Hh & ->).
+    split; [exact Hlt|]. split; [apply Hin; apply nth_In; exact Hlt|]. auto.
+  - intros t' E. destruct (Hn t' E) as [-> Hx]. split; [reflexivity|]. intros x Hxin. apply Hx. apply Hin. exact Hxin.
 Qed.
